@@ -77,7 +77,7 @@ def run(tier):
     r = tlc.model_check('asm', 'Tiling', 'Tiling_mc.cfg')
     rep.add_tlc(r, 'Tiling_mc')
     rep.model_violation(r, 'Tiling_mc')
-    per = 160 if tier == 'quick' else 2500
+    per = 400 if tier == 'quick' else 2500
     with mp.get_context('fork').Pool(16) as pool:
         parts = pool.map(worker, [(sd * 16 + k, per, wd) for k in range(16)])
     cases = [c for p in parts for c in p]
